@@ -172,13 +172,15 @@ _reg("C11", c11.run,
      level_note="Lean kernel; hand-written model of from_list; class-name list tied to the source by T2; node-object "
                 "identity is exhibited by the correspondence/oracle run only (the model has values, not object ids).")
 _reg("C12", c12.run,
-     theorems=["NirVerif.C12.init", "NirVerif.C12.fromList_mirror", "NirVerif.C12.infer_mirror", "NirVerif.C12.infer_history"],
+     theorems=["NirVerif.C12.init", "NirVerif.C12.fromList_mirror", "NirVerif.C12.infer_mirror", "NirVerif.C12.infer_history",
+               "NirVerif.C12.fromDict_mirror", "NirVerif.C12.read_mirror", "NirVerif.C12.history_mirror"],
      rule="Graphs with 0..n Input/Output children under arbitrary names, optionally nested, edges into Input nodes, "
           "followed by random histories (<=4, thorough <=6 operations) over infer_types / to_dict+from_dict / write+read; "
           "after every operation graph.inputs/outputs/input_type/output_type are compared with a scan of graph.nodes at every depth.",
      level_text="Kernel-checked invariant: every constructed graph mirrors its Input/Output children; from_list and "
-                "infer_types (also when it raises half-way) preserve it, hence any number of inference runs does. Dict and "
-                "file round trips rebuild the graph through the constructor; their histories are covered by the correspondence run.",
+                "infer_types (also when it raises half-way) preserve it, hence any number of inference runs does; every graph that "
+                "from_dict / read return mirrors its children; hence (history_mirror) after ANY sequence of to_dict+from_dict, "
+                "write+read and infer_types the graph-level dictionaries are the children's current ones.",
      level_note="Lean kernel; hand-written model of __post_init__/infer_types; histories with round trips rely on the oracle.")
 _reg("C13", c13.run, translator=("T1", "T2"),
      theorems=["NirVerif.C13.keys", "NirVerif.C13.no_types", "NirVerif.C13.roundtrip"],
